@@ -12,18 +12,22 @@ Tie (X):  the imported module is compared with the model executed by Coq on the 
           constructor / == / != / hash, encode_transition, valid_charge, dict behaviour.
 Search:   the executable statement of the property itself, evaluated on the imported module.
 """
+import copy
+import decimal
+import fractions
 import glob
 import json
+import pickle
 import math
 import os
 import subprocess
 import re
 import time
 
-from common import (REPO, COQ, VERIF, qlit, zlit, coq_string, coqc, coqc_many, parse_evals, parse_zlist)
+from common import (REPO, COQ, VERIF, frac, zlit, coq_string, coqc, coqc_many, parse_evals, parse_zlist)
 from c19_translate import translate, TranslateError
 
-THEOREMS = ["C19_element_lookup_by_every_identifier", "C19_isotope_lookup_by_every_identifier",
+THEOREMS = ["C19_element_lookup_by_every_identifier", "C19_isotope_lookup_by_every_identifier", "C19_lookup_any_argument_form",
             "C19_unknown_keys_rejected", "C19_names_and_symbols_unique",
             "C19_atomic_numbers_match_periodic_table", "C19_isotopes_consistent",
             "C19_eq_hash_agree", "C19_eq_hash_any_same_class", "C19_line_eq_hash_agree",
@@ -50,11 +54,23 @@ def model_periodic_table():
 # ---------------------------------------------------------------------------------------------
 # Coq literals
 # ---------------------------------------------------------------------------------------------
+def qlit(x):
+    """exact Q literal of a float / int / Fraction; big numerators / denominators (subnormal, huge and 2^k-scaled weights)
+    are written in hexadecimal: Coq converts decimal literals in quadratic time (0.3 s for 300 digits)"""
+    fr = frac(x)
+    n, d = fr.numerator, fr.denominator
+    if abs(n) < 10 ** 17 and d < 10 ** 17:
+        return "(Qmake %s %d)" % (zlit(n), d)
+    return "(Qmake %s 0x%x)" % ("(-0x%x)" % -n if n < 0 else "0x%x" % n, d)
+
+
 def q(s):
     return coq_string(s)
 
 
 def sref(ref):
+    if ref[0] in ("pickle", "deepcopy", "copy"):      # a copy made by the standard library: modelled by its structure
+        return sref(ref[1])
     if ref[0] == "attr":
         return "(RAttr %s)" % q(ref[1])
     if ref[0] == "elem":
@@ -64,20 +80,52 @@ def sref(ref):
 
 
 def arg_lit(a):
-    if isinstance(a, tuple):
+    """a: ('attr'|'elem'|'iso', ...) reference tuple, or the Python object that is passed to the lookup"""
+    if isinstance(a, tuple) and a and a[0] in ("attr", "elem", "iso"):
         return "(ARef %s)" % sref(a)
-    if isinstance(a, int):
+    if type(a) is int:
         return "(AInt %s)" % zlit(a)
-    return "(AStr %s)" % q(a)
+    if type(a) is str:
+        return "(AStr %s)" % q(a)
+    return "(AOther %s)" % q(ascii_only(str(a)))      # any other object: the code only looks at str(v)
+
+
+def num_lit(n):
+    if n is None:
+        return "NNone"
+    if type(n) is int:
+        return "(NInt %s)" % zlit(n)
+    return "(NOther %s %s)" % (boolc(bool(n)), q(ascii_only(str(n))))
+
+
+def ascii_only(s):
+    assert s.isascii(), s
+    return s
+
+
+def canon(t):
+    """bool / numpy integer / integral float entries equal (and hash like) the int: CPython / numpy numeric tower"""
+    if type(t) in (int, str):
+        return t
+    if isinstance(t, str):
+        return str(t)
+    f = float(t)
+    assert f == int(f), t
+    return int(f)
 
 
 def tval(t):
+    t = canon(t)
     return "(TInt %s)" % zlit(t) if isinstance(t, int) else "(TStr %s)" % q(t)
 
 
+def tlist(tr):
+    return "[" + "; ".join(tval(t) for t in tr) + "]"
+
+
 def lref(l):
-    ref, charge, (u, lo) = l
-    return "(LRef %s %s %s %s)" % (sref(ref), zlit(charge), tval(u), tval(lo))
+    ref, charge, tr = l
+    return "(LRef %s %s %s)" % (sref(ref), zlit(int(charge)), tlist(tr))
 
 
 def optz(n):
@@ -125,6 +173,12 @@ class Impl:
         self.isotopes = [(n, o) for n, o in self.exports if type(o) is mod.Isotope]
 
     def build(self, ref):
+        if ref[0] == "pickle":
+            return pickle.loads(pickle.dumps(self.build(ref[2])))
+        if ref[0] == "deepcopy":
+            return copy.deepcopy(self.build(ref[2]))
+        if ref[0] == "copy":
+            return copy.copy(self.build(ref[2]))
         if ref[0] == "attr":
             return getattr(self.mod, ref[1])
         if ref[0] == "elem":
@@ -225,6 +279,44 @@ def search_property(impl, rng, rows, alts, thorough=False):
                 break
         if try_lookup(mod.lookup_isotope, i) is not i:
             fail("lookup_isotope:object:%s" % attr, "lookup_isotope(%s) does not return the object" % attr)
+    # (2b) other spellings of the same identifiers: numpy integers / numpy strings / Decimal are accepted by the unchanged
+    #      code through str(); floats, bools, bytes, containers are rejected.  Whatever the code does with such a form, it must
+    #      never hand back a DIFFERENT species than the one the value identifies (ValueError or the right object).
+    import numpy as np
+    for attr, e in impl.elements:
+        z = e.atomic_number
+        for v in (np.int64(z), np.int32(z), np.str_(e.symbol), np.str_(e.name.upper()), decimal.Decimal(z)):
+            r = try_lookup(mod.lookup_element, v)
+            if r is not e:
+                fail("lookup_element:form:%s:%s" % (type(v).__name__, attr), "lookup_element(%s(%r)) does not return %s"
+                     % (type(v).__name__, v, attr), got=repr(r), want=attr)
+        for v in (float(z), np.float64(z), np.float32(z), fractions.Fraction(z), str(float(z))):
+            r = try_lookup(mod.lookup_element, v)
+            if isinstance(r, impl.Element) and r is not e:
+                fail("lookup_element:form-wrong:%s:%s" % (type(v).__name__, attr), "lookup_element(%s(%r)) returns %r, a different "
+                     "element than number %d" % (type(v).__name__, v, r, z), got=repr(r), want=attr + " or ValueError")
+    for attr, i in impl.isotopes:
+        el, a = i.element, i.mass_number
+        for v, n in ((np.int64(el.atomic_number), np.int64(a)), (el.symbol, str(a)), (np.str_(el.name), np.int32(a)), (el, np.int64(a))):
+            r = try_lookup(mod.lookup_isotope, v, n)
+            if r is not i:
+                fail("lookup_isotope:form:%s+%s:%s" % (type(v).__name__, type(n).__name__, attr),
+                     "lookup_isotope(%r, %s(%r)) does not return %s" % (v, type(n).__name__, n, attr), got=repr(r), want=attr)
+        for v, n in ((float(el.atomic_number), a), (el.symbol, float(a)), (np.float64(el.atomic_number), np.float64(a))):
+            r = try_lookup(mod.lookup_isotope, v, n)
+            if isinstance(r, impl.Element) and r is not i:
+                fail("lookup_isotope:form-wrong:%s+%s:%s" % (type(v).__name__, type(n).__name__, attr),
+                     "lookup_isotope(%r, %r) returns %r, not %s" % (v, n, r, attr), got=repr(r), want=attr + " or ValueError")
+    # (2c) the other entry points export the very same objects and functions
+    import importlib
+    for modname in ("cherab.core.atomic", "cherab.core"):
+        pkg = importlib.import_module(modname)
+        for n, o in impl.exports + [("lookup_element", mod.lookup_element), ("lookup_isotope", mod.lookup_isotope),
+                                    ("Element", mod.Element), ("Isotope", mod.Isotope)]:
+            if hasattr(pkg, n) and getattr(pkg, n) is not o:
+                fail("reexport:%s:%s" % (modname, n), "%s.%s is not the object defined in cherab.core.atomic.elements" % (modname, n))
+            elif modname == "cherab.core.atomic" and not hasattr(pkg, n):
+                fail("reexport-missing:%s" % n, "cherab.core.atomic does not export %s" % n)
     # (3) uniqueness
     seen = {}
     for attr, o in impl.exports:
@@ -314,6 +406,37 @@ def search_property(impl, rng, rows, alts, thorough=False):
             fail("copy-hash:%s" % type(o).__name__, "a species equal to %s hashes differently" % n, species=n)
         elif d.get(c) != d.get(o):
             fail("copy-dict:%s" % type(o).__name__, "a species equal to %s does not find its dict entry" % n, species=n)
+    # (6b) copies made by pickle / copy / deepcopy are equal, hash equally and find the dict entry; the hash of a live object
+    #      is stable (before / after it has been used as a key and looked up); the fields of a species cannot be re-assigned
+    #      (a key that could be mutated in place would be lost in its dict)
+    for n, o in objs:
+        h0 = hash(o)
+        for how, fn in (("pickle", lambda x: pickle.loads(pickle.dumps(x))), ("copy.copy", copy.copy), ("copy.deepcopy", copy.deepcopy)):
+            try:
+                c = fn(o)
+            except Exception as e:
+                fail("stdlib-copy:%s:%s" % (how, type(o).__name__), "%s of %s raised %s: %s" % (how, n, type(e).__name__, e), species=n)
+                continue
+            if not (c == o) or not (o == c) or (c != o) or hash(c) != hash(o) or d.get(c) != d.get(o) or type(c) is not type(o):
+                fail("stdlib-copy:%s:%s" % (how, type(o).__name__), "%s of %s: == %s, != %s, hashes equal %s, finds the dict entry %s"
+                     % (how, n, c == o, c != o, hash(c) == hash(o), d.get(c) == d.get(o)), species=n)
+        if hash(o) != h0 or hash(o) != hash(o):
+            fail("hash-unstable:%s" % type(o).__name__, "hash(%s) changes between calls" % n, species=n)
+        try:
+            c = impl.build(impl.ref_fields(n, o))
+        except Exception:
+            continue
+        for field, val in (("name", "x"), ("symbol", "x"), ("atomic_number", 0), ("atomic_weight", 0.5), ("mass_number", 0), ("element", None)):
+            if not hasattr(c, field):
+                continue
+            hc = hash(c)
+            try:
+                setattr(c, field, val)
+            except (AttributeError, TypeError):
+                continue
+            if hash(c) != hc:
+                fail("mutable-key:%s:%s" % (type(o).__name__, field), "%s.%s can be re-assigned and that changes the hash: a species used "
+                     "as a dict key can be lost" % (type(o).__name__, field), species=n)
     # (7) lines
     sample = objs if thorough else rng.sample(objs, min(len(objs), 60))
     trans = [(3, 2), (4, 2), ("2s1 3p1 3P4.0", "2s1 3s1 3S1.0"), ("3", 2)]
@@ -375,6 +498,9 @@ def run(ctx):
         "CPython: dir() is sorted, str.lower() on ASCII, str(int), the == / != dispatch between a class and its subclass, "
         "hash() of tuples of str/int/float respects their equality, dict slot matching = equal hash and (identical or ==); "
         "Cython: cdef class __richcmp__/__hash__ code generation, int/double field conversion",
+        "argument forms: an object that is neither str, int nor a species enters the model as its str() (and, for `number`, its truth "
+        "value) as computed by Python; bool / numpy-integer / integral-float entries of transitions and charges enter as the int they "
+        "equal; pickle / copy / deepcopy results enter as their field structure",
         "coq/Model/C19_Registry.v periodic_table: 118 rows written by hand from the IUPAC list (sanity lemma: numbers 1..118, "
         "names and symbols pairwise different)",
     ]
@@ -407,6 +533,8 @@ def run(ctx):
 
     impl = Impl()
     ctx.log("imported module: %d elements, %d isotopes" % (len(impl.elements), len(impl.isotopes)))
+    # the executable property on the pristine module (before any history has been driven through it)
+    fails_first = search_property(impl, rng, rows, alts, thorough=not quick)
 
     tie_ok = False
     diff_meta = []
@@ -421,7 +549,11 @@ def run(ctx):
                  "Definition en : env := Eval vm_compute in (match exec table [] with Some e => e | None => [] end).\n"
                  "Definition rg : registry := Eval vm_compute in (registry_of_env en).\n"
                  "Definition ixe : index element := Eval vm_compute in (element_index rg).\n"
-                 "Definition ixi : index isotope := Eval vm_compute in (isotope_index rg).\n")
+                 "Definition ixi : index isotope := Eval vm_compute in (isotope_index rg).\n"
+                 )
+        state2 = ("(* the builders run a second time on top of the existing dictionaries *)\n"
+                  "Definition ixe2 : index element := Eval vm_compute in (fold_left (add_keys element_keys) (elements rg) ixe).\n"
+                  "Definition ixi2 : index isotope := Eval vm_compute in (fold_left (add_keys isotope_keys) (isotopes rg) ixi).\n")
         p_state = ctx.write_gen("State.v", state)
         tie = (HEADER + "Require Import Cherab.Gen.C19.Table Cherab.Gen.C19.State Cherab.Properties.C19.\n"
                "Eval vm_compute in (match load table with Some _ => 1%Z | None => 0%Z end :: "
@@ -467,12 +599,15 @@ def run(ctx):
             n_cases = len(cases)
             n_distinct = len({cases[i] for i in range(n_cases) if not meta[i]["kind"].startswith("trivial:")})
             n_err = sum(1 for i in range(n_cases) if " EErr" in cases[i] or meta[i]["kind"].endswith("rejected"))
-            heavy = [i for i in range(n_cases) if meta[i]["kind"] == "dict_scenario"]
-            light = [i for i in range(n_cases) if meta[i]["kind"] != "dict_scenario"]
-            groups = [[i] for i in heavy] + [light[k:k + 500] for k in range(0, len(light), 500)]
+            heavy = [i for i in range(n_cases) if meta[i]["kind"] == "dict_history"]
+            light = [i for i in range(n_cases) if meta[i]["kind"] != "dict_history" and "ixe2" not in cases[i]]
+            late = [i for i in range(n_cases) if "ixe2" in cases[i]]
+            groups = ([[i] for i in heavy] + [late[k:k + 500] for k in range(0, len(late), 500)]
+                      + [light[k:k + 500] for k in range(0, len(light), 500)])
             files = []
             for gi, ids in enumerate(groups):
                 txt = (HEADER + "Require Import Cherab.Gen.C19.State.\nOpen Scope string_scope.\nOpen Scope Z_scope.\n"
+                       + (state2 if ids and "ixe2" in cases[ids[0]] else "") +
                        "Definition results : list bool := [\n  " + ";\n  ".join(cases[i] for i in ids) + "].\n"
                        "Eval vm_compute in (failing results).\n")
                 files.append((ctx.write_gen("cases_%03d.v" % gi, txt), ids))
@@ -498,7 +633,14 @@ def run(ctx):
 
     # ---- failing-input search: always run (cheap); decisive when something above broke --------------
     t0 = time.time()
-    fails = search_property(impl, rng, rows, alts, thorough=not quick)
+    # ... and again on the same live module after the histories of the correspondence (thousands of lookups, dicts, a second
+    # run of the index builders); a failure that shows up only now is keyed "after-history:"
+    fails = list(fails_first)
+    first_keys = {f["key"] for f in fails_first}
+    for f in search_property(impl, rng, rows, alts, thorough=not quick):
+        if f["key"] not in first_keys:
+            fails.append(dict(f, key="after-history:" + f["key"], claim="after the lookups, dict histories and a second run of the "
+                                                                        "index builders: " + f["claim"]))
     ctx.obligation("executable property on the implementation (%d elements, %d isotopes, all pairs)"
                    % (len(impl.elements), len(impl.isotopes)), "search", not fails, str(fails[:3]))
     ctx.log("search: %d failures (%.1fs)" % (len(fails), time.time() - t0))
@@ -534,7 +676,7 @@ def run(ctx):
                      "definitions_translated": len(stmts) if stmts is not None else None},
         "tolerance": {"all discrete outputs": "exact", "weights": "bit for bit (exact rational of the double); additionally the "
                       "double is within 2^-50 relative of the exact decimal expression in the source"},
-        "partial": [],
+        "partial": ["dict deletion (pop) is modelled and tied by the correspondence but no theorem is stated about it"],
         "search": {"failures": len(fails), "pairs_compared": len(impl.exports) * (len(impl.exports) - 1) // 2},
     })
     ctx.coverage["samples"] = samples
@@ -578,18 +720,30 @@ def build_cases(ctx, impl, stmts, rows, rng, quick, dist):
                 zlit(o.atomic_number), zlit(o.mass_number), qlit(o.atomic_weight), qlit(wd)), call=attr)
 
     # -- lookups ------------------------------------------------------------------------------------------
-    def le(kind, a, arg_obj=None):
-        ex, shown = impl.expect(mod.lookup_element, arg_obj, a if arg_obj is None else arg_obj)
-        add(kind, "check_lookup_element en ixe %s %s" % (arg_lit(a), ex), call="lookup_element(%r)" % (a,), got=shown)
+    import numpy as np
+    ix = {"e": "ixe", "i": "ixi"}          # which model indices the cases use (ixe2/ixi2 after the builders ran again)
+    replayable = []                        # (fn, a, number, arg_obj, style) of every lookup: re-run later on the same live module
 
-    def li(kind, a, number, arg_obj=None):
+    def le(kind, a, arg_obj=None, record=True):
         v = a if arg_obj is None else arg_obj
-        if number is None:
+        ex, shown = impl.expect(mod.lookup_element, arg_obj, v)
+        add(kind, "check_lookup_element en %s %s %s" % (ix["e"], arg_lit(a), ex), call="lookup_element(%r)" % (a,), got=shown)
+        if record:
+            replayable.append(("e", a, None, arg_obj, "pos"))
+
+    def li(kind, a, number, arg_obj=None, style=None, record=True):
+        v = a if arg_obj is None else arg_obj
+        style = style or rng.choice(["kw", "pos"] + (["omit"] if number is None else []))
+        if style == "omit":
             ex, shown = impl.expect(mod.lookup_isotope, arg_obj, v)
+        elif style == "pos":
+            ex, shown = impl.expect(mod.lookup_isotope, arg_obj, v, number)
         else:
             ex, shown = impl.expect(mod.lookup_isotope, arg_obj, v, number=number)
-        add(kind, "check_lookup_isotope en ixe ixi %s %s %s" % (arg_lit(a), optz(number), ex),
-            call="lookup_isotope(%r, number=%r)" % (a, number), got=shown)
+        add(kind, "check_lookup_isotope en %s %s %s %s %s" % (ix["e"], ix["i"], arg_lit(a), num_lit(number), ex),
+            call="lookup_isotope(%r, %s%r)" % (a, {"kw": "number=", "pos": "", "omit": "<omitted> "}[style], number), got=shown)
+        if record:
+            replayable.append(("i", a, number, arg_obj, style))
 
     for path in sorted(glob.glob(os.path.join(VERIF, "corpus", "C19", "*.json"))):
         for c in json.load(open(path)).get("cases", []):
@@ -641,6 +795,67 @@ def build_cases(ctx, impl, stmts, rows, rng, quick, dist):
         le("lookup_element:odd", s)
         li("lookup_isotope:odd", s, None)
         li("lookup_isotope:odd", s, 2)
+
+    # -- unusual but valid argument forms (numpy scalars, bool, float, Decimal, bytes, None, containers, subclass
+    #    instances): the unchanged code looks at str(v) only; a rejection is recorded as the expected outcome ------
+    class PyElement(impl.Element):       # an instance of a Python subclass is not `type(v) is Element`
+        pass
+
+    def odd_element_forms(e):
+        z = e.atomic_number
+        return [np.int64(z), np.int32(z), np.uint8(z), float(z), np.float64(z), np.float32(z), decimal.Decimal(z),
+                fractions.Fraction(z), np.str_(e.symbol), np.str_(e.name.upper()), e.symbol.encode(), (z,), [z], {z},
+                bool(z == 1), None, complex(z), PyElement(e.name, e.symbol, z, e.atomic_weight)]
+
+    def odd_numbers(a):
+        return [np.int64(a), np.int32(a), np.uint16(a), str(a), " " + str(a), str(a) + " ", "0" + str(a), float(a),
+                np.float64(a), decimal.Decimal(a), fractions.Fraction(a), True, False, "", "0", [], [a], (a,), -a, 0.0, -0.0, np.int64(0)]
+
+    sel_e = impl.elements if not quick else rng.sample(impl.elements, 25)
+    for attr, e in sel_e:
+        forms = odd_element_forms(e)
+        for v in (forms if not quick else rng.sample(forms, 6)):
+            le("form:lookup_element:" + type(v).__name__, v)
+    sel_i = impl.isotopes if not quick else rng.sample(impl.isotopes, 40)
+    for attr, i in sel_i:
+        el, a = i.element, i.mass_number
+        nums = odd_numbers(a)
+        for n in (nums if not quick else rng.sample(nums, 5)):
+            v = rng.choice([el.symbol, el.name.upper(), el.atomic_number, np.int64(el.atomic_number), np.str_(el.symbol), el])
+            if v is el and id(el) not in impl.attr_of:
+                continue
+            if v is el:
+                li("form:lookup_isotope:number=" + type(n).__name__, ("attr", impl.attr_of[id(el)]), n, arg_obj=el)
+            else:
+                li("form:lookup_isotope:number=" + type(n).__name__, v, n)
+        for v in rng.sample(odd_element_forms(el), 3):
+            li("form:lookup_isotope:element=" + type(v).__name__, v, a)
+            li("form:lookup_isotope:element=" + type(v).__name__, v, None)
+    # -- objects that pass the `type(v) is ...` shortcut without being registry members -------------------------------
+    for attr, i in (impl.isotopes if not quick else rng.sample(impl.isotopes, 40)):
+        el, a = i.element, i.mass_number
+        if id(el) not in impl.attr_of:
+            continue
+        fe = ("elem", "not-" + el.name, el.symbol, el.atomic_number + 100, 1.0)          # a foreign Element carrying a registry symbol
+        fi = ("iso", "not-" + i.name, i.symbol, impl.attr_of[id(el)], a, float(a))
+        le("fresh-object:lookup_element(element)", fe, arg_obj=impl.build(fe))
+        le("fresh-object:lookup_element(isotope)", fi, arg_obj=impl.build(fi))
+        li("fresh-object:lookup_isotope(isotope)", fi, rng.choice([None, a, 0]), arg_obj=impl.build(fi))
+        li("fresh-object:lookup_isotope(element,A)", fe, a, arg_obj=impl.build(fe))
+        li("fresh-object:lookup_isotope(element)", fe, None, arg_obj=impl.build(fe))
+        fu = ("elem", el.name, el.symbol + "q", el.atomic_number, el.atomic_weight)      # unknown symbol
+        li("fresh-object:lookup_isotope(unknown-symbol,A)", fu, a, arg_obj=impl.build(fu))
+    # -- the same argument driven across the `if number:` guard and back (truthy -> falsy -> truthy) ----------------------
+    for attr, i in (impl.isotopes if not quick else rng.sample(impl.isotopes, 30)):
+        el, a = i.element, i.mass_number
+        v = rng.choice([el.symbol, el.name, i.symbol, i.name, el.atomic_number])
+        for n in [a, 0, None, a, "", a + 1, False, np.int64(a), -0.0, a]:
+            li("guard-sequence:number", v, n)
+    # -- repr / str of exported and fresh objects (what lookup_* sees of an object it does not recognise) -----------------
+    for attr, o in (impl.exports if not quick else rng.sample(impl.exports, 60)):
+        add("repr", "check_repr en %s %s" % (sref(("attr", attr)), q(repr(o))), call="repr(%s)" % attr, got=repr(o))
+        c = impl.ref_fields(attr, o)
+        add("repr", "check_repr en %s %s" % (sref(c), q(str(impl.build(c)))), call="str(copy of %s)" % attr, got=str(impl.build(c)))
 
     # -- == / != / hash ----------------------------------------------------------------------------------------
     def eq(kind, ra, rb):
@@ -714,6 +929,36 @@ def build_cases(ctx, impl, stmts, rows, rng, quick, dist):
             for b in names:
                 eq("eq_all_pairs" if a != b else "trivial:eq_self", ("attr", a), ("attr", b))
 
+    # -- copies made through the other entry points (pickle, copy.copy, copy.deepcopy) ------------------------------------
+    for attr, o in (impl.exports if not quick else rng.sample(impl.exports, 50)):
+        if type(o) is impl.Isotope and id(o.element) not in impl.attr_of:
+            continue
+        src = ("attr", attr)
+        for how, struct in (("pickle", impl.deep_copy_ref(attr, o)), ("deepcopy", impl.deep_copy_ref(attr, o)),
+                            ("copy", impl.ref_fields(attr, o))):
+            r = (how, struct, src)
+            eq("eq_stdlib_copy:" + how, src, r)
+            if not quick or rng.random() < 0.3:
+                eq("eq_stdlib_copy:" + how, r, struct)
+    # -- boundary values of the weight comparison (exact float ==): one ulp either side, +-0.0, subnormal, huge,
+    #    powers of two apart; boundary atomic numbers (0, 1, 2, INT_MAX) --------------------------------------------------
+    for attr, o in (impl.exports if not quick else rng.sample(impl.exports, 40)):
+        c = impl.ref_fields(attr, o)
+        if c[0] == "iso" and c[3].startswith("<"):
+            continue
+        w = c[-1]
+        ws = [math.nextafter(w, math.inf), math.nextafter(w, -math.inf), w * 2.0, w / 2.0, w * 2.0 ** 52, w * 2.0 ** -52,
+              w * 2.0 ** 900, w * 2.0 ** -1000, 0.0, -0.0, 5e-324, -5e-324, 2.2250738585072014e-308, 1.7976931348623157e308, -w,
+              float(round(w)), float(np.float32(w))]
+        for w2 in (ws if not quick else rng.sample(ws, 4)):
+            m = c[:-1] + (w2,)
+            eq("eq_boundary_weight", ("attr", attr), m)
+            eq("eq_boundary_weight", m, c[:-1] + (rng.choice(ws),))
+    for z in (0, 1, 2, -1, 2 ** 31 - 1, -2 ** 31 + 1):
+        for w in (0.0, -0.0, 1.0):
+            a_, b_ = ("elem", "x", "X", z, w), ("elem", "x", "X", rng.choice([z, z + 1 if z < 2 ** 31 - 1 else z - 1]), rng.choice([0.0, -0.0, 1.0]))
+            eq("eq_boundary_Z", a_, b_)
+
     # -- lines ----------------------------------------------------------------------------------------------------
     trans_pool = [(3, 2), (4, 2), (2, 3), ("2s1 3p1 3P4.0", "2s1 3s1 3S1.0"), ("2S1 3P1 3P4.0", "2s1 3s1 3S1.0"),
                   ("3", 2), (3, "2"), ("n=3", "n=2")]
@@ -758,48 +1003,151 @@ def build_cases(ctx, impl, stmts, rows, rng, quick, dist):
             leq("line_eq_other_species", l, (("attr", other), c, t))
         else:
             leq("line_eq_copied_species", l, (impl.ref_fields(ref[1], o), c, t))
-    for t in trans_pool + [(rng.randint(1, 20), rng.randint(1, 20)) for _ in range(10)]:
-        s = impl.utility.encode_transition(t)
-        add("encode_transition", "check_encode_transition %s %s %s" % (tval(t[0]), tval(t[1]), q(s)),
-            call="encode_transition(%r)" % (t,), got=s)
+    # transitions of length 0, 1, 3; bool / numpy / integral-float entries and charges (they equal the int); elements with
+    # boundary atomic numbers (Z = 0: no charge state at all, Z = 1, Z = INT_MAX)
+    odd_trans = [(), (3,), ("3d",), (3, 2, 1), ("a", "b", "c"), (True, 2), (np.int64(3), np.int32(2)), (3.0, 2.0), (np.str_("n=3"), "n=2"),
+                 (3, 2)]
+    sel = rng.sample(line_refs, min(len(line_refs), 40 if quick else 400))
+    for ref, c, t in sel:
+        o = impl.build(ref)
+        t2 = rng.choice(odd_trans)
+        c2 = rng.choice([c, bool(c) if c in (0, 1) else c, np.int64(c), np.int32(c)])
+        a = impl.Line(o, c2, t2)
+        b = impl.Line(o, c, tuple(canon(x) for x in t2))
+        e, n, h = bool(a == b), bool(a != b), hash(a) == hash(b)
+        add("line_forms", "check_line_eq en %s %s %s %s %s" % (lref((ref, c2, t2)), lref((ref, c, t2)), boolc(e), boolc(n), boolc(h)),
+            call="Line(%r, %r, %r) vs plain ints" % (ref, c2, t2), got=(e, n, h))
+        t3 = rng.choice(odd_trans)
+        leq("line_eq_transition_lengths", (ref, c, tuple(canon(x) for x in t2)), (ref, c, tuple(canon(x) for x in t3)))
+    for z in (0, 1, 2, 2 ** 31 - 1):
+        fe = ("elem", "x", "X", z, 1.0)
+        for c in sorted(c for c in {-1, 0, 1, z - 2, z - 1, z} if -2 ** 31 <= c < 2 ** 31):
+            try:
+                impl.Line(impl.build(fe), c, (3, 2))
+                built = True
+            except ValueError:
+                built = False
+            add("line_new:boundary_Z", "check_line_new en %s %s" % (lref((fe, c, (3, 2))), boolc(built)),
+                call="Line(Element(Z=%d), %d, (3, 2))" % (z, c), got=built)
+            vc = impl.utility.valid_charge(impl.build(fe), rng.choice([c, np.int64(c), float(c)]))
+            add("valid_charge:boundary_Z", "check_valid_charge en %s %s %s" % (sref(fe), zlit(c), boolc(bool(vc))),
+                call="valid_charge(Element(Z=%d), %d)" % (z, c), got=bool(vc))
+    enc = [(t, tuple) for t in trans_pool] + [((rng.randint(1, 20), rng.randint(1, 20)), rng.choice([tuple, list])) for _ in range(10)]
+    enc += [((9, 10), list), ((99, 100), tuple), ((100, 101), tuple), ((), tuple), ((3,), tuple), ((3, 2, 1), list), (("A", "b", "C"), tuple),
+            ((True, False), tuple), ((3.0, 2.5), tuple), ((np.int64(3), np.str_("N=2")), list), ((None, 2), tuple), ("ab", str), ("abc", str)]
+    for t, ctor in enc:
+        arg = ctor(t) if ctor is not str else t
+        try:
+            got = impl.utility.encode_transition(arg)
+        except ValueError:
+            got = None
+        # entries that are neither int nor str enter the model through their str() (the code only formats str(entry))
+        ent = [x if type(x) in (int, str) else str(x) for x in t]
+        add("encode_transition" + ("" if got is not None else ":rejected"),
+            "check_encode_transition [%s] %s" % ("; ".join("(TInt %s)" % zlit(x) if type(x) is int else "(TStr %s)" % q(x) for x in ent),
+                                                 "None" if got is None else "(Some %s)" % q(got)),
+            call="encode_transition(%r)" % (arg,), got=got)
 
-    # -- dictionaries ----------------------------------------------------------------------------------------------
-    for rep in range(2 if quick else 6):
+    # -- dictionaries: ONE live dict (and one live set) driven through a history of assignments, re-assignments of the same
+    #    value, deletions, re-insertions and reads, every step compared with the model --------------------------------------
+    for rep in range(2 if quick else 8):
         ops, pyd = [], {}
         pool = list(impl.exports)
         rng.shuffle(pool)
-        pool = pool[:90] if quick else (pool if rep == 0 else pool[:150])
+        pool = pool[:70] if quick else (pool if rep == 0 else pool[:150])
         val = 0
+        keys = []          # (kref text, builder) of everything that was ever used as a key
 
-        def put(kref_txt, key):
+        def kspecies(ref):
+            return ("KS " + sref(ref), lambda ref=ref: impl.build(ref))
+
+        def kline(l):
+            return ("KL " + lref(l), lambda l=l: impl.Line(impl.build(l[0]), l[1], l[2]))
+
+        def put(k, same_value=False):
             nonlocal val
-            val += 1
-            pyd[key] = val
-            ops.append("(%s, %s)" % (kref_txt, zlit(val)))
+            obj = k[1]()
+            if not (same_value and obj in pyd):
+                val += 1
+                v = val
+            else:
+                v = pyd[obj]
+            pyd[obj] = v
+            ops.append("DSet (%s) %s" % (k[0], zlit(v)))
+            keys.append(k)
+
+        def get(k):
+            ops.append("DGet (%s) %s" % (k[0], optz(pyd.get(k[1]()))))
+
+        def delete(k):
+            pyd.pop(k[1](), None)
+            ops.append("DDel (%s)" % k[0])
+
+        def length():
+            ops.append("DLen %s" % zlit(len(pyd)))
+
         for attr, o in pool:
-            put("KS " + sref(("attr", attr)), o)
-        for attr, o in rng.sample(pool, 25):
-            copy = impl.ref_fields(attr, o)
-            put("KS " + sref(copy), impl.build(copy))                 # an equal copy: overwrites the value, no new entry
-            m = mutate(copy, rng.choice(["name", "weight-ulp", "Z/A"]))
-            put("KS " + sref(m), impl.build(m))                        # a mutant: a new entry
-        lsel = rng.sample(line_refs, min(len(line_refs), 60))
+            put(kspecies(("attr", attr)))
+        length()
+        lsel = rng.sample(line_refs, min(len(line_refs), 40))
         for l in lsel:
-            put("KL " + lref(l), impl.Line(impl.build(l[0]), l[1], l[2]))
-        for l in rng.sample(lsel, min(len(lsel), 20)):
-            put("KL " + lref(l), impl.Line(impl.build(l[0]), l[1], l[2]))   # equal line built again
-        qs = []
-        for attr, o in pool + rng.sample(impl.exports, 40):
-            qs.append(("KS " + sref(("attr", attr)), pyd.get(o)))
-        for attr, o in rng.sample(impl.exports, 30):
-            copy = impl.ref_fields(attr, o)
-            qs.append(("KS " + sref(copy), pyd.get(impl.build(copy))))
-            m = mutate(copy, rng.choice(["symbol", "weight", "case"]))
-            qs.append(("KS " + sref(m), pyd.get(impl.build(m))))
-        for l in rng.sample(line_refs, min(len(line_refs), 60)):
-            qs.append(("KL " + lref(l), pyd.get(impl.Line(impl.build(l[0]), l[1], l[2]))))
-        add("dict_scenario", "check_dict en [%s] %s [%s]" % (
-            "; ".join(ops), zlit(len(pyd)), "; ".join("(%s, %s)" % (k, optz(v)) for k, v in qs)),
-            call="dict with %d assignments (species, equal copies, mutants, lines), %d queries" % (len(ops), len(qs)),
+            put(kline(l))
+        length()
+        for step in range(150 if quick else 400):
+            attr, o = rng.choice(pool)
+            fresh = impl.ref_fields(attr, o)
+            if fresh[0] == "iso" and fresh[3].startswith("<"):
+                continue
+            cand = [kspecies(("attr", attr)), kspecies(fresh), kspecies(impl.deep_copy_ref(attr, o)),
+                    kspecies(mutate(fresh, rng.choice(["name", "symbol", "weight-ulp", "weight", "Z/A", "case"]))),
+                    kspecies(("pickle", impl.deep_copy_ref(attr, o), ("attr", attr))), kline(rng.choice(lsel)),
+                    rng.choice(keys)]
+            # (an Element built with an isotope's four base fields compares equal to the isotope but hashes differently - the
+            #  cross-class quirk covered by the eq_cross_class_same_fields cases; such look-alikes are not used as dict keys
+            #  here because the dict model is run with a hash that respects ==, which holds within one class only)
+            k = rng.choice(cand)
+            act = rng.choice(["set", "set", "set-same", "get", "get", "del", "del-get-set", "len"])
+            if act == "set":
+                put(k)
+            elif act == "set-same":
+                put(k, same_value=True)
+            elif act == "get":
+                get(k)
+            elif act == "del":
+                delete(k)
+                get(k)
+            elif act == "del-get-set":
+                delete(k)
+                get(k)
+                put(k)
+                get(k)
+            else:
+                length()
+        for k in rng.sample(keys, min(len(keys), 60)):
+            get(k)
+        length()
+        add("dict_history", "check_dict en [%s]" % "; ".join(ops),
+            call="one dict through %d steps (set / set same value / get / pop / len; species, copies, mutants, lines)" % len(ops),
             got={"len": len(pyd)})
+
+    # -- the same live module again: every kind of lookup re-run after all of the above, then once more after the index
+    #    builders have been called a second time (model: the builders run again on top of the existing indices) ------------
+    def rerun(kind, n):
+        for fn, a_, number, arg_obj, style in rng.sample(replayable, min(len(replayable), n)):
+            if fn == "e":
+                le(kind, a_, arg_obj=arg_obj, record=False)
+            else:
+                li(kind, a_, number, arg_obj=arg_obj, style=style, record=False)
+    rerun("history:second-call", 300 if quick else 3000)
+    snap = (dict(getattr(mod, "_element_index", {})), dict(getattr(mod, "_isotope_index", {})))
+    if hasattr(mod, "_build_element_index") and hasattr(mod, "_build_isotope_index"):
+        mod._build_element_index()
+        mod._build_isotope_index()
+        ix["e"], ix["i"] = "ixe2", "ixi2"
+        rerun("history:after-rebuilding-indices", 400 if quick else 4000)
+        ix["e"], ix["i"] = "ixe", "ixi"
+    after = (dict(getattr(mod, "_element_index", {})), dict(getattr(mod, "_isotope_index", {})))
+    same = all(set(x) == set(y) and all(x[k] is y[k] for k in x) for x, y in zip(snap, after))
+    ctx.obligation("index dictionaries unchanged by %d lookups and a second run of the builders" % len(replayable), "correspondence", same,
+                   "" if same else "keys/objects differ: %s" % [sorted(set(x) ^ set(y))[:5] for x, y in zip(snap, after)])
     return cases, meta
